@@ -102,6 +102,13 @@ AddOutcomes(r) ==
         ctx \in {Open, Right}, an \in AddAnswers, o \in {BaseO, FullO}, st \in {"absent", "true", "false"},
         ch \in {"absent", "size1024", "bogus"}, lo \in {"absent", "true"}}
 
+\* the parameters that shape the DAG, in every combination, in the hand-written HTTP form
+AddShapes(r) ==
+    {[CanonR(r) EXCEPT !.a = [BaseA EXCEPT !["cidv"] = cv, !["rawleaves"] = rl, !["chunker"] = ch, !["stream"] = st,
+                                           !["layout"] = ly]] :
+        cv \in {"absent", "zero", "one"}, rl \in {"absent", "true", "false"}, ch \in {"absent", "size1024"},
+        st \in {"absent", "false"}, ly \in {"absent", "trickle"}}
+
 \* ---- everything for one route / one pattern -------------------------------
 RouteCases(r, level) ==
     PosCases(r, Open) \cup PosCases(r, Right) \cup AuthInvalid(r)
@@ -112,7 +119,7 @@ RouteCases(r, level) ==
             THEN WithO(r, Open, Singles(FullO)) \cup WithO(r, Open, OptPairs)
             ELSE {})
     \cup (IF r.name = "Add"
-            THEN WithA(r, AddSingles, BaseO) \cup WithA(r, AddSingles, FullO) \cup AddOutcomes(r)
+            THEN WithA(r, AddSingles, BaseO) \cup WithA(r, AddSingles, FullO) \cup AddOutcomes(r) \cup AddShapes(r)
                  \cup (IF level = "thorough" THEN WithA(r, AddPairs, BaseO) ELSE {})
             ELSE {})
     \cup (IF level = "thorough" /\ r \in CarryRoutes
@@ -162,6 +169,14 @@ ClientCases(r) ==
                     o \in ClientPairs \cup {ClientFull}, a \in {BaseA}}
                  \cup {[CanonR(r) EXCEPT !.via = "client", !.o = o, !.a = a] :
                     o \in {BaseO, ClientFull}, a \in ClientAddSingles}
+                 \* every DAG-shaping parameter and every boolean both ways, as a caller states them in api.AddParams
+                 \cup {[CanonR(r) EXCEPT !.via = "client",
+                                         !.a = [BaseA EXCEPT !["cidv"] = cv, !["rawleaves"] = rl, !["chunker"] = ch,
+                                                             !["wrap"] = wr, !["progress"] = pg, !["hidden"] = hr,
+                                                             !["recursive"] = hr, !["alocal"] = lo]] :
+                    cv \in {"absent", "zero", "one"}, rl \in {"absent", "true", "false"}, ch \in {"absent", "size1024"},
+                    wr \in {"absent", "true", "false"}, pg \in {"absent", "true", "false"}, hr \in {"true", "false"},
+                    lo \in {"true", "false"}}
                  \cup {[CanonR(r) EXCEPT !.via = "client", !.cfg = ctx[1], !.cred = ctx[2], !.ans = an,
                                          !.o = o, !.a = [BaseA EXCEPT !["chunker"] = ch]] :
                     ctx \in ClientCtx, an \in AddAnswers, o \in {BaseO, [BaseO EXCEPT !["origins"] = "nopeer"]},
